@@ -143,6 +143,9 @@ impl<T: Elem + SatisfyTraits<Tr>, M: MX, Tr: TrX + ?Sized> World<T, M, Tr> {
                             spare[i * sz..(i + 1) * sz].copy_from_slice(src);
                             std::mem::forget(v);
                         }
+                        // taking the view again (here: to ask for its extent) must not disturb what was written through the first one
+                        let again = a.spare_bytes_mut();
+                        if again.as_ptr() as usize != want_at { return Err(format!("second spare_bytes_mut starts at {:#x}, the first one at {want_at:#x}", again.as_ptr() as usize)); }
                         a.set_len(len + k);
                     } else {
                         let mut t = a.downcast_mut::<T>().unwrap();
@@ -150,6 +153,8 @@ impl<T: Elem + SatisfyTraits<Tr>, M: MX, Tr: TrX + ?Sized> World<T, M, Tr> {
                         let want_at = base + len * sz;
                         if spare.as_ptr() as usize != want_at || spare.len() < k { return Err(format!("spare_capacity_mut covers {:#x}+{} slots but the spare capacity is at {want_at:#x}", spare.as_ptr() as usize, spare.len())); }
                         for (i, v) in vals.drain(..).enumerate() { spare[i].write(v); }
+                        let again = t.spare_capacity_mut().len();
+                        if again + len != cap { return Err(format!("second spare_capacity_mut has {again} slots, want {}", cap - len)); }
                         t.set_len(len + k);
                     }
                     Ok(())
